@@ -27,7 +27,7 @@ pub fn run(ctx: &Ctx, rep: &mut Report) {
         let want = armor::val(ch).unwrap();
         let shapes: [(&str, u8, u8); 4] = [("unfragmented", 1, 1), ("opener", 3, 1), ("continuation", 3, 2), ("final", 3, 3)];
         for (shape, n, k) in shapes {
-            for variant in 0..ctx.budget(32, 512) {
+            for variant in 0..ctx.budget(256, 2048) {
                 let decode = variant % 2 == 1;
                 // remainder: random armored text, or (decode on) a valid message of this type
                 let mut payload: Vec<u8> = vec![ch];
